@@ -30,9 +30,9 @@ CLAIMED["C04"] = ("DESIGN.md §4 C04",
     "function here (C01 decides it); flag words beyond the popcount bound are outside the claim")
 
 CLAIMED["C18"] = ("DESIGN.md §4 C18",
-    "Every string of up to 3 (quick) / 4 (thorough) arbitrary Unicode scalar values is tokenized symbolically by the real "
+    "Every string of up to 3 arbitrary Unicode scalar values is tokenized symbolically by the real "
     "Tokenizer: z3 shows the only escaping exception is TokenizerError and the token texts concatenate to the input; quoted "
-    "strings over a 8-symbol alphabet up to length 5/6 are never split.",
+    "strings over a 8-symbol alphabet up to length 5 are never split.",
     "trusted: pysym, regex alphabet-partition model, float(str) outcome model; outside: longer strings, fixture formulas; reader output limited to string+integer+reference operands, one operator, one function")
 CLAIMED["C11"] = ("DESIGN.md §4 C11",
     "Row/column arguments are unbounded symbolic ints: z3 shows Table.cell, write, set_cell_style (through "
